@@ -175,6 +175,8 @@ def _index(a, idx):
         return _index(a[h], rest)
     if isinstance(h, slice):
         return [_index(x, rest) for x in a[h]]
+    if isinstance(h, list):  # one integer index array: the axis is gathered in place
+        return [_index(a[int(k)], rest) for k in h]
     raise AnalysisError("index kind")
 
 
@@ -215,6 +217,11 @@ class Evaluator:
                 return matmul(a, b)
             ops = {ast.Add: lambda x, y: x + y, ast.Sub: lambda x, y: x - y, ast.Mult: lambda x, y: x * y, ast.Div: lambda x, y: x / y, ast.Pow: lambda x, y: x**y}
             f = ops.get(type(e.op))
+            if f is None and isinstance(e.op, (ast.FloorDiv, ast.Mod)):
+                def f(x, y, _op=e.op):
+                    if getattr(x, "is_Integer", False) and getattr(y, "is_Integer", False) and y != 0:
+                        return sp.Integer(int(x) // int(y)) if isinstance(_op, ast.FloorDiv) else sp.Integer(int(x) % int(y))
+                    raise AnalysisError(f"{self.where}: '{core.src(e)}' on symbolic operands")
             if f is None:
                 raise AnalysisError(f"{self.where}: operator {type(e.op).__name__}")
             return _map2(f, a, b)
@@ -222,6 +229,11 @@ class Evaluator:
             return transpose(self.ev(e.value))
         if isinstance(e, ast.Attribute) and core.src(e) in self.env:
             return self.env[core.src(e)]
+        if isinstance(e, ast.Attribute) and e.attr == "shape":
+            return [sp.Integer(n_) for n_ in shape(self.ev(e.value))]
+        if isinstance(e, ast.Attribute) and e.attr in ("real", "imag"):
+            g_ = sp.re if e.attr == "real" else sp.im
+            return _map2(lambda x, _: g_(x), self.ev(e.value), sp.Integer(0))
         if isinstance(e, ast.Subscript) and core.src(e.value) in ("np.c_", "np.column_stack") and isinstance(e.slice, ast.Tuple):
             cols = [self.ev(x) for x in e.slice.elts]
             if not all(len(shape(c)) == 1 and shape(c) == shape(cols[0]) for c in cols):
@@ -247,6 +259,10 @@ class Evaluator:
                     idx.append(slice(None))
                 elif isinstance(p, ast.Name) and isinstance(self.env.get(p.id), (int, sp.Integer)):
                     idx.append(int(self.env[p.id]))
+                elif isinstance(p, ast.Name) and isinstance(self.env.get(p.id), list) and self.env[p.id] and all(getattr(x, "is_Integer", False) for x in self.env[p.id]):
+                    if any(isinstance(x, list) for x in idx):
+                        raise AnalysisError(f"{self.where}: two index arrays in '{core.src(e)}'")
+                    idx.append([int(x) for x in self.env[p.id]])
                 else:
                     raise AnalysisError(f"{self.where}: subscript '{core.src(p)}'")
             return _index(a, idx)
@@ -384,6 +400,37 @@ class Evaluator:
                 axes = list(range(nd))
                 axes[vals[0]], axes[vals[1]] = axes[vals[1]], axes[vals[0]]
                 return permute(base, axes)
+            if f in ("np.arange", "range") and len(e.args) == 1 and not isinstance(e.args[0], ast.Constant):
+                n_ = self.ev(e.args[0])
+                if not getattr(n_, "is_Integer", False):
+                    raise AnalysisError(f"{self.where}: '{core.src(e)}' with a symbolic extent")
+                return [sp.Integer(i) for i in range(int(n_))]
+            if f == "np.arange" and len(e.args) == 1 and isinstance(e.args[0], ast.Constant) and isinstance(e.args[0].value, int):
+                return [sp.Integer(i) for i in range(e.args[0].value)]
+            if (isinstance(e.func, ast.Attribute) and e.func.attr == "sum" and not e.args and f != "np.sum") or (f == "np.sum" and len(e.args) == 1):
+                a = self.ev(e.func.value) if f != "np.sum" else self.ev(e.args[0])
+                axis = [k.value for k in e.keywords if k.arg == "axis"]
+                nd = len(shape(a))
+                if not axis:
+                    tot = sp.Integer(0)
+                    stack = [a]
+                    while stack:
+                        x = stack.pop()
+                        if isinstance(x, list):
+                            stack += x
+                        else:
+                            tot += x
+                    return tot
+                axn = axis[0]
+                axv = axn.value if isinstance(axn, ast.Constant) else (-axn.operand.value if isinstance(axn, ast.UnaryOp) and isinstance(axn.op, ast.USub) and isinstance(axn.operand, ast.Constant) else None)
+                if not isinstance(axv, int) or nd == 0:
+                    raise AnalysisError(f"{self.where}: sum over axis '{core.src(axn)}'")
+                axv %= nd
+                moved = permute(a, [axv] + [i for i in range(nd) if i != axv]) if nd > 1 else a
+                acc = moved[0]
+                for x in moved[1:]:
+                    acc = _map2(lambda p_, q_: p_ + q_, acc, x)
+                return acc
             if f == "range" and len(e.args) == 1 and isinstance(e.args[0], ast.Constant) and isinstance(e.args[0].value, int):
                 return [sp.Integer(i) for i in range(e.args[0].value)]
             if f == "zip" and e.args:
@@ -454,6 +501,10 @@ class Evaluator:
         raise AnalysisError(f"{self.where}: expression '{core.norm(core.src(e), 60)}'")
 
 
+class _Continue(Exception):
+    pass
+
+
 def run_block(evl: Evaluator, stmts) -> None:
     """Straight-line statements and for loops over arrays / zip(...) of arrays (rows are iterated), with
     ``name = expr``, ``self.attr = expr``, ``name.append(expr)``, ``name[k] = expr`` (k an integer literal or an unrolled
@@ -508,7 +559,32 @@ def run_block(evl: Evaluator, stmts) -> None:
                         evl.env[x.id] = r_
                 else:
                     raise AnalysisError(f"{evl.where}: loop target '{core.src(st.target)}'")
-                run_block(evl, st.body)
+                try:
+                    run_block(evl, st.body)
+                except _Continue:
+                    pass
+            continue
+        if isinstance(st, ast.Continue):
+            raise _Continue()
+        if isinstance(st, ast.Pass):
+            continue
+        if isinstance(st, ast.If):
+            # a test on modelled values: decided symbolically; an (in)equation between generic symbols that sympy
+            # cannot decide holds / fails at a generic point, which is what the evaluator's ``generic`` mode assumes
+            c = evl.ev(st.test)
+            if isinstance(c, list):
+                raise AnalysisError(f"{evl.where}: truth value of an array in '{core.norm(core.src(st.test), 50)}'")
+            c = sp.simplify(c) if isinstance(c, sp.Basic) else c
+            if c in (sp.true, True):
+                take = st.body
+            elif c in (sp.false, False):
+                take = st.orelse
+            elif getattr(evl, "generic", False) and isinstance(c, (sp.Eq, sp.Ne)):
+                take = st.orelse if isinstance(c, sp.Eq) else st.body
+                evl.generic_used = getattr(evl, "generic_used", []) + [core.norm(core.src(st.test), 50)]
+            else:
+                raise AnalysisError(f"{evl.where}: test '{core.norm(core.src(st.test), 50)}' is not decided by the modelled values")
+            run_block(evl, take)
             continue
         raise AnalysisError(f"{evl.where}: statement '{core.norm(core.src(st), 60)}' is outside the array fragment")
 
